@@ -46,6 +46,7 @@ def plan(tier: str, seed: int):
     shards.append({"kind": "decoder", "seed": seed})
     shards.append({"kind": "scalars", "seed": seed, "n": 40 if tier == "quick" else 2000})
     shards.append({"kind": "rejects"})
+    shards.append({"kind": "w0"})
     return shards
 
 
@@ -199,6 +200,10 @@ def run_shard(shard) -> Result:
         res.inconclusive.append("spec codec disagrees with google.protobuf.internal: " + st)
         return res
     k = shard["kind"]
+    if k == "w0":
+        from ..w0 import run_w0
+
+        return run_w0(PROP, ["varint"])
     if k == "range":
         for x in range(shard["lo"], shard["hi"]):
             _check_int(bp, res, x)
@@ -315,6 +320,10 @@ def replay(w):
     import betterproto as bp
 
     res = Result()
+    if w["kind"] == "w0":
+        from ..w0 import run_w0
+
+        return run_w0(PROP, ["varint"]).violations
     if w["kind"] == "int":
         _check_int(bp, res, int(w["x"]))
     elif w["kind"] == "low":
